@@ -342,7 +342,24 @@ def check_C09(tier):
 
 
 def check_C15(tier):
-    return std_chess_check("C15", tier, ["tree", "walk"]).finish()
+    def dead_material(ck, res0):
+        # 'insufficient material evaluates to exactly 0' on every material configuration of Material.tla (all pairs of
+        # up to three non-king pieces per side, both sides to move) that the engine classifies as insufficient
+        import shutil
+        am = art_material()
+        ck.add_tlc(am)
+        run = vlib.scratch("mat")
+        try:
+            res = vlib.run_driver(["material", "-obs", vlib.art_out(am), "-out", os.path.join(run, "res.json")], cwd=run)
+        finally:
+            shutil.rmtree(run, ignore_errors=True)
+        ck.add_result(res)
+        n = res["counters"].get("C15.insufficient_positions", 0)
+        ck.cov["counters"]["C15.insufficient_material_configurations"] = n
+        ck.cov["evaluations"] += n
+    ck = std_chess_check("C15", tier, ["tree", "walk"], extra=dead_material)
+    ck.cov["rule"] += "; every material configuration of Material.tla that the engine calls insufficient must evaluate to 0"
+    return ck.finish()
 
 
 def check_C17(tier):
@@ -1207,6 +1224,10 @@ def gate_behaviours(tier):
             if prev is not None and (prev[0] != st["k"] or prev[3] != st["i"]) and st["k"] != "x" and prev[0] != "x":
                 fs.add((prev[0], prev[1], prev[2], key))     # a context switch: which step of whom is followed by which step of another
             fs.add(key)
+            if st.get("spawn"):
+                fs.add(("spawn", st["l"], min(st.get("alive", 1), 3)))      # a timer is started while 0 / 1 / 2+ others are still alive
+            if st["l"] in ("r.try.ok", "r.try.fail", "r.reset", "r.end.set", "r.sent", "r.rel", "c.stop.set", "call.ponderhit"):
+                fs.add(("alive", st["l"], json.dumps(st["x"]), min(st.get("alive", 0), 2)))
             prev = (st["k"], st["l"], json.dumps(st["x"]), st["i"])
         return fs
     fl = [(b, feats(b)) for b in behs if b["steps"]]
@@ -1230,11 +1251,39 @@ def gate_behaviours(tier):
     return chosen, len(behs), len(covered), len(allf), art
 
 
+GATE_GOALS = 11
+
+
+def gate_goal_behaviours(tier):
+    """One behaviour per scenario goal of SearchLifecycleGen.tla: TLC's counterexample to 'never Goal(n)' (breadth first, so the
+    shortest way there). Returns (behaviours with ids 900000+n, artefacts)."""
+    import concurrent.futures
+
+    def one(n):
+        cfg = (GATE_CFG % (2, 4, 2)).replace("INVARIANTS GProps", "INVARIANTS NoGoal%d" % n)
+        art = vlib.tlc("SearchLifecycleGen", cfg, workers=4, tag="life-goal%d" % n, expect_ok=False, timeout=1800)
+        steps = []
+        for line in vlib.tlc_lines(art, "/\\ act = "):
+            v = json.loads(line[len("/\\ act = "):])
+            if v != "init":
+                steps.append(json.loads(v))
+        if not steps:
+            raise Inconclusive("TLC did not reach scenario goal %d of SearchLifecycleGen: %s" % (n, vlib.art_stats(art).get("error")))
+        return {"id": 900000 + n, "steps": steps, "goal": n}, art
+    with concurrent.futures.ThreadPoolExecutor(max_workers=3) as ex:
+        got = list(ex.map(one, range(1, GATE_GOALS + 1)))
+    return [b for b, _ in got], [a for _, a in got]
+
+
 def gate_replay(ck, prop, tier):
     """Specification -> implementation: behaviours of the lifecycle model forced onto the real Search through the hook
     gates (driver command life-gate)."""
     chosen, ngen, ncov, nall, art = gate_behaviours(tier)
     ck.add_tlc(art)
+    goals, garts = gate_goal_behaviours(tier)
+    for a in garts:
+        ck.add_tlc(a)
+    chosen = goals + chosen
     byid = {b["id"]: b for b in chosen}
     results, _ = run_life(chosen, watchdog=8000, cmd="life-gate")
     again = [byid[r["id"]] for r in results if r["hang"]]
@@ -1285,10 +1334,13 @@ def gate_replay(ck, prop, tier):
                  {"accepted_starts": res["accepted"], "results": res["results"], "diverged": d})
         for e in res.get("early") or []:
             disc("result-before-stop", "early-result/" + e["mode"], res, {"search": e["search"], "note": e["note"], "diverged": d})
+        for e in res.get("stuck") or []:
+            disc("search-does-not-end", "no-self-end/" + e["mode"], res, {"search": e["search"], "note": e["note"], "diverged": d})
     ck.cov.setdefault("counters", {})
     ck.cov["counters"].update({"gate_behaviours_generated": ngen, "gate_behaviours_replayed": len(results), "gate_in_lock_step": lock,
                                "gate_diverged": div, "gate_steps_in_lock_step": steps, "gate_context_switches_forced": switches,
-                               "gate_features_covered": ncov, "gate_features_in_generated_set": nall})
+                               "gate_features_covered": ncov, "gate_features_in_generated_set": nall, "gate_scenario_goals": len(goals),
+                               "gate_scenario_goals_in_lock_step": sum(1 for r in results if r["id"] >= 900000 and not r.get("diverged"))})
     ck.cov["traces_validated_against_impl"] += lock
     ck.cov["evaluations"] += steps
     return results
@@ -1820,6 +1872,9 @@ MALFORMED = [
     "go depth", "go depth x", "go nodes", "go nodes -", "go movetime", "go movetime abc", "go wtime", "go movestogo", "go mate",
     "go foo", "go depth 2 foo", "go\tdepth", "go winc", "go binc x", "go btime",
     "setoption", "setoption name", "setoption name Foo value 1", "setoption value 3",
+    "setoption name Hash value -1", "setoption name Hash value -100000", "setoption name Hash value abc", "setoption name Hash value",
+    "position startpos moves " + " ".join(["g1f3", "g8f6", "f3g1", "f6g8"] * 130),      # 520 half moves: more than the position can hold
+    "position startpos moves " + " ".join(["b1c3", "b8c6", "c3b1", "c6b8"] * 400),
     "xyz", "   ", "\t", "quit2", "u c i", "\u2654\u2655 e2e4", "go" + " x" * 2000, "position " + "9" * 3000, "=" * 20000,
 ]
 
@@ -1867,6 +1922,31 @@ def check_C16(tier):
             sid = len(scripts) + 1
             scripts.append({"id": sid, "name": "malformed/" + ctx, "steps": steps})
             meta[sid] = {"mal": m, "ctx": ctx, "fen": fen}
+    # ---- well-formed but unusual lines: they have their normal effect (a go is answered by one bestmove) and nothing else happens
+    for ni, n in enumerate(nodes[:(6 if quick else 40)]):
+        a_, b_ = fenspec.mv_uci(n["legal"][0]), fenspec.mv_uci(n["legal"][1])
+        cmd, fen = uci_position_cmd(n)
+        for g in ["go depth 2 searchmoves %s %s" % (a_, a_), "go searchmoves %s %s %s depth 2" % (a_, b_, a_), "go depth 1 depth 2",
+                  "go movetime 30 movetime 40", "go wtime 100 btime 100 winc 0 binc 0 movestogo 1", "go nodes 1", "go depth 2 nodes 100 movetime 50",
+                  "go wtime 1 btime 1", "go depth 2 searchmoves " + " ".join(fenspec.mv_uci(m_) for m_ in n["legal"]),
+                  "go mate 1 depth 2", "go depth 200 nodes 50", "go wtime 50 btime 50 winc 100000 binc 100000"]:
+            steps = [S("uci"), ul.wait("uciok", 3000), S(cmd), ul.sync(), S(g), ul.wait("bestmove", 8000), ul.sync(),
+                     S("go depth 1"), ul.wait("bestmove", 8000)]
+            sid = len(scripts) + 1
+            scripts.append({"id": sid, "name": "unusual/go", "steps": steps})
+            meta[sid] = {"mal": g, "ctx": "idle", "fen": fen, "valid": True}
+        for o_ in ["setoption name Hash value 0", "setoption name Hash value 1", "setoption name Clear Hash", "ucinewgame", "isready", "debug on",
+                   "setoption name Ponder value true", "stop", "ponderhit"]:
+            steps = [S("uci"), ul.wait("uciok", 3000), S(cmd), ul.sync(), S(o_), ul.sync(), S(cmd), S("go depth 2"), ul.wait("bestmove", 8000), ul.sync()]
+            sid = len(scripts) + 1
+            scripts.append({"id": sid, "name": "unusual/idle", "steps": steps})
+            meta[sid] = {"mal": o_, "ctx": "idle", "fen": fen, "valid": True, "keeps_position": o_ != "ucinewgame"}
+    # a long but supported game: 380 half moves of knight shuffles (the position is the initial one with its clocks advanced)
+    long_game = "position startpos moves " + " ".join(["g1f3", "g8f6", "f3g1", "f6g8"] * 95)
+    sid = len(scripts) + 1
+    scripts.append({"id": sid, "name": "unusual/long-game", "steps": [S("uci"), ul.wait("uciok", 3000), S(long_game), ul.sync(), S("go depth 2"),
+                                                                      ul.wait("bestmove", 8000), ul.sync()]})
+    meta[sid] = {"mal": long_game, "ctx": "idle", "fen": "rnbqkbnr/pppppppp/8/8/8/8/PPPPPPPP/RNBQKBNR w KQkq - 380 191", "valid": True}
     res3 = ul.run_sessions(scripts)
     for sc in scripts:         # time-outs are confirmed by a second run of the session alone
         r = res3[sc["id"]]
@@ -1895,11 +1975,11 @@ def check_C16(tier):
             if e["ev"] == "timeout":
                 disc("engine-unresponsive", "uci/no-" + e.get("line", "") + "/" + word, sid, {"line": m["mal"][:200], "context": m["ctx"]})
         fens = [e.get("line", "") for e in ev if e["ev"] == "fen"]
-        if len(fens) >= 2 and fens[1] != fens[0]:
+        if len(fens) >= 2 and fens[1] != fens[0] and m.get("keeps_position", True):
             disc("position-lost", "uci/position-changed/" + word, sid, {"line": m["mal"][:200], "before": fens[0], "after": fens[1]})
         if fens and fens[0] != m["fen"]:
             disc("position-command", "position/fen-differs", sid, {"engine": fens[0], "specification": m["fen"]})
-        traces[sid] = ul.trace_of(ev, malformed_lines=(m["mal"],))
+        traces[sid] = ul.trace_of(ev, malformed_lines=(() if m.get("valid") else (m["mal"],)))
     verdicts, st = ul.validate(traces, tag="uci16-trace")
     ck.cov["states"] += st[0]
     ck.cov["transitions"] += st[1]
@@ -2187,7 +2267,25 @@ def check_C20(tier):
             for _ in range(rng.randint(1, 4)):
                 b[rng.randrange(len(b))] ^= 1 << rng.randrange(8)
             faults.append(("bitflip", i, bytes(b)))
+        # single bytes inverted, spread over the whole file (damage inside the value part of the gob stream makes the decoder
+        # fail AFTER it has delivered some entries)
+        for i in range(3, len(blob), max(1, len(blob) // (150 if quick else 1200))):
+            b = bytearray(blob)
+            b[i] ^= 0xFF
+            faults.append(("invert", i, bytes(b)))
         faults += [("garbage", 0, b"\x00" * 100), ("garbage", 1, bytes(rng.randrange(256) for _ in range(300))), ("missing", 0, None)]
+        # which of the damaged (non-prefix) files are undecodable? asked of the gob decoder itself, on a fresh map
+        pdir = vlib.scratch("probe")
+        try:
+            os.makedirs(os.path.join(pdir, "f"))
+            for kind, n, data in faults:
+                if kind in ("bitflip", "invert"):
+                    with open(os.path.join(pdir, "f", "%s-%d" % (kind, n)), "wb") as fh:
+                        fh.write(data)
+            vlib.run_driver(["gob-probe", "-dir", os.path.join(pdir, "f"), "-out", os.path.join(pdir, "probe.json")], cwd=pdir, load=False)
+            decodes = json.load(open(os.path.join(pdir, "probe.json")))
+        finally:
+            shutil.rmtree(pdir, ignore_errors=True)
 
         hangs = [0]
 
@@ -2211,11 +2309,15 @@ def check_C20(tier):
                     disc("initialisation-%s" % ("hangs" if hang else "crashes"), "cache/%s/%s" % ("hang" if hang else "crash", tag),
                          {"book": bname, "fault": kind, "at_byte": n, "rc": rc, "stderr": err[-400:]},
                          {"fault": kind, "bytes": n, "book_text": text[:2000]})
+                elif kind in ("bitflip", "invert") and decodes.get("%s-%d" % (kind, n), False):
+                    cnt["damaged_but_decodable"] = cnt.get("damaged_but_decodable", 0) + 1    # not "undecodable": the claim does not apply
                 elif bl.book_summary(dump)[0] != refsum[0]:
-                    if kind == "bitflip":
-                        cnt["bitflips_still_decodable"] = cnt.get("bitflips_still_decodable", 0) + 1    # not "undecodable": the claim does not apply
-                    else:
-                        disc("wrong-book-after-damaged-cache", "cache/wrong-book/" + tag, {"book": bname, "fault": kind, "at_byte": n})
+                    got = bl.book_summary(dump)[0]
+                    disc("wrong-book-after-damaged-cache", "cache/wrong-book/" + tag,
+                         {"book": bname, "fault": kind, "at_byte": n, "positions": len(got), "positions_expected": len(refsum[0]),
+                          "counters_differ": sum(1 for k_ in got if refsum[0].get(k_) != got[k_])})
+                elif kind in ("bitflip", "invert"):
+                    cnt["undecodable_damaged_files_recovered"] = cnt.get("undecodable_damaged_files_recovered", 0) + 1
     cnt["fault_cases"] = nfaults
     ck.cov["evaluations"] = nfaults
     ck.cov["distinct_nontrivial"] = nfaults
@@ -2227,7 +2329,7 @@ def check_C20(tier):
                       "missing file: a child process initialises the book twice in a row under a watchdog and must end with the book of the "
                       "source file; non-trivial = all fault cases")
     ck.cov["samples"] = [{"fault": "prefix", "bytes": 17}, {"fault": "bitflip"}, {"fault": "missing"}]
-    ck.assumptions.append("a corrupted (non-prefix) variant that still decodes is not 'undecodable' and is only counted")
+    ck.assumptions.append("a damaged (non-prefix) variant that the gob decoder still accepts (asked on a fresh map) is not 'undecodable' and is only counted")
     return ck.finish()
 
 
@@ -2488,6 +2590,8 @@ def selftest():
 
 def setup():
     vlib.driver()
+    gate_behaviours("quick")
+    gate_goal_behaviours("quick")
     shared("quick")
     dfs_arts("quick")
     c10_arts("quick")
@@ -2515,7 +2619,7 @@ def main():
             {"gate": lambda: gate_replay(ck, prop, a.tier)}[name]()
             for d in ck.discs[:12]:
                 print("DISC", d["kind"], d["sig"], json.dumps(d["detail"])[:300])
-            print("NOTES", ck.notes[:8])
+            print("NOTES", [n_ for n_ in ck.notes if "DRIFT" in n_][:12])
             print("COUNTERS", ck.cov.get("counters"))
             print("disc_count", ck.disc_count)
             return 1 if ck.discs else 0
